@@ -1,6 +1,7 @@
 (* SliceInterp.v — the slice node of the interpreter, on top of SliceFacts. *)
 From JM Require Import Model.Base Model.Num Model.Value Model.Slice Model.Functions Model.Interp.
 From JM Require Import Spec.PySlice Proofs.SliceFacts.
+From Coq Require Import ZifyBool.
 
 Section WithNum.
 Context {NumO : NumOps}.
@@ -19,6 +20,7 @@ Lemma execute_slice_array fuel (xs : list value) a b c :
   end.
 Proof.
   intros Hl Ha Hb Hc. cbn [Execute slice_node].
+  destruct (two63 <=? zlen xs) eqn:Eh; [lia|].
   rewrite (slice_go_python xs a b c Hl Ha Hb Hc).
   destruct (py_slice xs a b c); reflexivity.
 Qed.
